@@ -530,10 +530,10 @@ def min_weight_bipartite_matching(
     if has_null_edges:
         if isinstance(edge_type, bool):
             raise ValueError("Null edges are only supported with `int` or `float` edge types, not `bool`. Bipartite graphs with `bool` edge weights must be complete.")
-        null_edge_value: Optional[EdgeType] = max(
+        null_edge_value: Optional[EdgeType] = max(max(
             sum(weights[row][col] for row in range(len(from_nodes)) if weights[row][col] is not None)
             for col in range(len(to_nodes))
-        ) + 1
+        ), max_edge) + 1
         assert null_edge_value > max_edge
         max_edge = null_edge_value
     else:
